@@ -16,6 +16,7 @@ import (
 	"os/exec"
 	"sort"
 	"strings"
+	"sync"
 	"time"
 
 	"jetverif/harness/sx"
@@ -140,14 +141,41 @@ func WorkerMain() {
 }
 
 type implRes struct {
-	obs  string
-	fail string
+	obs    string
+	fail   string
+	stderr string // what a dying worker wrote to stderr
 }
 
 type worker struct {
-	cmd   *exec.Cmd
-	stdin io.WriteCloser
-	lines chan string
+	cmd    *exec.Cmd
+	stdin  io.WriteCloser
+	lines  chan string
+	stderr *tailBuf
+}
+
+// tailBuf keeps the first bytes a dying worker wrote to stderr (race report, fatal error, panic)
+type tailBuf struct {
+	mu  sync.Mutex
+	b   []byte
+	max int
+}
+
+func (t *tailBuf) Write(p []byte) (int, error) {
+	t.mu.Lock()
+	if len(t.b) < t.max {
+		t.b = append(t.b, p...)
+		if len(t.b) > t.max {
+			t.b = t.b[:t.max]
+		}
+	}
+	t.mu.Unlock()
+	return len(p), nil
+}
+
+func (t *tailBuf) String() string {
+	t.mu.Lock()
+	defer t.mu.Unlock()
+	return string(t.b)
 }
 
 func startWorker() (*worker, error) {
@@ -157,7 +185,8 @@ func startWorker() (*worker, error) {
 	}
 	c := exec.Command(self, "--worker")
 	c.Env = append(os.Environ(), "GOMEMLIMIT=3GiB", "GOTRACEBACK=single")
-	c.Stderr = io.Discard
+	errTail := &tailBuf{max: 6000}
+	c.Stderr = errTail
 	stdin, err := c.StdinPipe()
 	if err != nil {
 		return nil, err
@@ -169,7 +198,7 @@ func startWorker() (*worker, error) {
 	if err := c.Start(); err != nil {
 		return nil, err
 	}
-	w := &worker{cmd: c, stdin: stdin, lines: make(chan string, 64)}
+	w := &worker{cmd: c, stdin: stdin, lines: make(chan string, 64), stderr: errTail}
 	go func() {
 		sc := bufio.NewReaderSize(stdout, 1<<20)
 		for {
@@ -233,9 +262,9 @@ func runImpl(cases []Case, perCase time.Duration) ([]implRes, int) {
 		}
 		if werr != nil || !ok {
 			w.kill()
+			res[i] = implRes{obs: "(crash process-died)", stderr: w.stderr.String()}
 			w = nil
 			restarts++
-			res[i] = implRes{obs: "(crash process-died)"}
 			continue
 		}
 		x, err := sx.Parse(got)
@@ -316,28 +345,28 @@ func runModel(cases []Case, driver string) (map[int]string, error) {
 // ---------------------------------------------------------------- results
 
 type Issue struct {
-	Kind   string `json:"kind"` // "disagreement" | "oracle" | "impl-crash" | "impl-hang"
-	Stream string `json:"stream"`
-	Case   string `json:"case"`
-	Meta   string `json:"meta,omitempty"`
-	Impl   string `json:"impl"`
-	Model  string `json:"model,omitempty"`
+	Kind     string `json:"kind"` // "disagreement" | "oracle" | "impl-crash" | "impl-hang"
+	Stream   string `json:"stream"`
+	Case     string `json:"case"`
+	Meta     string `json:"meta,omitempty"`
+	Impl     string `json:"impl"`
+	Model    string `json:"model,omitempty"`
 	ModelRaw string `json:"model_raw,omitempty"`
-	Oracle string `json:"oracle,omitempty"`
-	Corpus string `json:"corpus,omitempty"`
+	Oracle   string `json:"oracle,omitempty"`
+	Corpus   string `json:"corpus,omitempty"`
 }
 
 type StreamStat struct {
-	Cases        int            `json:"cases"`
-	Distinct     int            `json:"distinct"`
-	NonTrivial   int            `json:"distinct_nontrivial"`
-	ModelCases   int            `json:"model_cases"`
-	Unsupported  int            `json:"unsupported"`
+	Cases          int            `json:"cases"`
+	Distinct       int            `json:"distinct"`
+	NonTrivial     int            `json:"distinct_nontrivial"`
+	ModelCases     int            `json:"model_cases"`
+	Unsupported    int            `json:"unsupported"`
 	UnsupportedWhy map[string]int `json:"unsupported_why,omitempty"`
-	Agreements   int            `json:"agreements"`
-	OracleChecks int            `json:"oracle_checked"`
-	Tags         map[string]int `json:"tags"`
-	ImplClasses  map[string]int `json:"impl_result_classes"`
+	Agreements     int            `json:"agreements"`
+	OracleChecks   int            `json:"oracle_checked"`
+	Tags           map[string]int `json:"tags"`
+	ImplClasses    map[string]int `json:"impl_result_classes"`
 }
 
 type Result struct {
@@ -467,7 +496,7 @@ func Run(pid, tier string, seed uint64, driver, outPath, corpusDir string, only 
 				if impl[i].obs == "(hang)" {
 					impl[i].fail = "the implementation did not return within the per-case time limit"
 				} else {
-					impl[i].fail = "the implementation killed its process (fatal error or unrecovered panic)"
+					impl[i].fail = "the implementation killed its process (fatal error, unrecovered panic or detected data race): " + firstLines(impl[i].stderr, 14)
 				}
 			}
 		}
@@ -531,6 +560,14 @@ func Run(pid, tier string, seed uint64, driver, outPath, corpusDir string, only 
 		os.WriteFile(outPath, b, 0o644)
 	}
 	return 0
+}
+
+func firstLines(s string, n int) string {
+	ls := strings.Split(strings.TrimSpace(s), "\n")
+	if len(ls) > n {
+		ls = ls[:n]
+	}
+	return clip(strings.Join(ls, " | "), 1500)
 }
 
 func clip(s string, n int) string {
